@@ -52,5 +52,8 @@ def _write_crtf(regions, filename, coordsys='fk5', fmt='.6f', radunit='deg',
 
     output = _serialize_crtf(regions, coordsys=coordsys, fmt=fmt,
                              radunit=radunit)
-    with open(filename, 'w') as fh:
-        fh.write(output)
+    # encode first: text that cannot be encoded must fail before the
+    # destination is created or truncated
+    data = output.encode()
+    with open(filename, 'wb') as fh:
+        fh.write(data)
